@@ -314,8 +314,12 @@ def run_resolve_case(case, res):
 
   def prefix(name):
     return '' if name == '' else os.path.join(base, name)
+  # a registered location is a prefix offered to every reader: only the locations that hold something on disk exist there
   for name in set(order) - {''}:
-    os.makedirs(prefix(name))
+    if any(n == name and r in ('real', 'dir') for n, r in cells):
+      os.makedirs(prefix(name))
+    else:
+      res.w('location_not_on_disk')
   for name in order:
     gin.add_config_file_search_path(prefix(name))
   locs = [''] + list(order)                      # registration order, current directory first
@@ -333,6 +337,7 @@ def run_resolve_case(case, res):
       continue
     text = "c14.f.x = 'cell:%s:%s'\n" % (name, reader)
     if reader == 'real':
+      os.makedirs(os.path.dirname(path), exist_ok=True)
       with open(path, 'w') as fh:
         fh.write(text)
     elif reader == 'm1':
@@ -594,6 +599,34 @@ def run_special_case(case, res):
                       % (desc, first, want_first, second, r), desc)
       else:
         res.w('reparse_after_failure')
+    elif kind.startswith('skip_list_in_included_file'):
+      # the include tree behaves like the flattened text, also in what skip_unknown covers: a name the list does not
+      # cover is an error at any depth, a listed one is skipped at any depth
+      form = kind.rsplit('_', 1)[1]
+      skip = {'list': ['c14optional'], 'tuple': ('c14optional',), 'set': {'c14optional'}}[form]
+      MEM1['c14s_root.gin'] = "c14.f.x = 'root'\ninclude 'c14s_mid.gin'\n"
+      MEM1['c14s_mid.gin'] = "c14optional.p = 1\ninclude 'c14s_leaf.gin'\n"
+      outs = []
+      for leaf in ("c14optional.q = 2\nc14.f.y = 'leaf'\n", "c14.f.y = 'leaf'\nc14mystery.r = 3\n",
+                   "c14.f.y = @c14mystery_ref()\n"):
+        harness.hard_reset()
+        MEM1['c14s_leaf.gin'] = leaf
+        def seen():
+          try:
+            return F()[:2]
+          except Exception as e:  # pylint: disable=broad-except
+            return 'call raised %s' % type(e).__name__
+        try:
+          gin.parse_config_file('c14s_root.gin', skip_unknown=skip)
+          outs.append(('ok', seen()))
+        except Exception as e:  # pylint: disable=broad-except
+          outs.append((type(e).__name__, seen()))
+      want = [('ok', ('root', 'leaf')), ('ValueError', ('root', 'leaf')), ('ValueError', ('root', None))]
+      if outs != want:
+        res.violation('lenient_tree_differs_from_flat_text', '%r: skip_unknown=%r through two includes: %r, the flattened text '
+                      'gives %r' % (desc, skip, outs, want), desc)
+      else:
+        res.w('skip_list_same_at_every_depth')
     elif kind.startswith('unreadable_include_lenient'):
       # lenient parsing (skip_unknown) is about unknown configurables and modules, not about files nobody can read
       skip = {'unreadable_include_lenient_true': True, 'unreadable_include_lenient_list': ['c14.nothing'],
@@ -720,7 +753,8 @@ SPECIALS = ['absolute_present', 'absolute_missing', 'package_regular', 'package_
             'namespace_two_portions_second', 'namespace_two_portions_include', 'earlier_copy_missing_include',
             'earlier_reader_missing_include', 'module_as_directory', 'builtin_module_as_directory',
             'location_with_double_slash', 'symlinked_location_dotdot', 'reparse_after_failed_include', 'reparse_after_semantic_error', 'unreadable_include_lenient_true',
-            'unreadable_include_lenient_list', 'unreadable_include_lenient_nested', 'unreadable_include_lenient_string']
+            'unreadable_include_lenient_list', 'unreadable_include_lenient_nested', 'unreadable_include_lenient_string',
+            'skip_list_in_included_file_list', 'skip_list_in_included_file_tuple', 'skip_list_in_included_file_set']
 
 
 # ------------------------------------------------------------------------------------ C: multi-file entry point
